@@ -128,6 +128,16 @@ func ghost_arg_onDeletion_0[K comparable]() K               { panic("ghost") }
 func ghost_arg_onDeletion_1[V any]() V                      { panic("ghost") }
 func ghost_arg_onDeletion_2() DeletionCause                 { panic("ghost") }
 
+// write buffer: events accepted; direct maintenance runs on behalf of a writer
+func ghost_queued() int                                                    { panic("ghost") }
+func ghost_calls_performCleanUp() int                                      { panic("ghost") }
+func ghost_last_performCleanUp_t[K comparable, V any]() *task[K, V]        { panic("ghost") }
+func ghost_calls_afterWriteTask() int                                      { panic("ghost") }
+func ghost_last_afterWriteTask_t[K comparable, V any]() *task[K, V]        { panic("ghost") }
+func ghost_calls_getTask() int                                            { panic("ghost") }
+func ghost_last_getTask_result[K comparable, V any]() *task[K, V]          { panic("ghost") }
+func ghost_calls_notifyDeletion() int                                      { panic("ghost") }
+
 // log of calls of the policy notification entry points
 func ghost_calls_afterWrite() int                                           { panic("ghost") }
 func ghost_last_afterWrite_n[K comparable, V any]() node.Node[K, V]         { panic("ghost") }
@@ -615,15 +625,49 @@ func estOf[K comparable](s *sketch[K], k K) uint64 {
 //@   ensures [C05:old-state-otherwise-kept] old != nil && !(c.withMaintenance && pre(alive(old))) ==> ghost_state(old) == pre(ghost_state(old))
 
 // policy notification entry points (bodies verified in the C05/C06 block)
+//@ func (*cache).scheduleAfterWrite : C05 C06
+//@   assumed drain-status protocol (C14 is not applicable); footprint of a possibly triggered maintenance run
+//@   modifies $MAINT, $EVLOG, $ONDEL
+
+//@ func (*cache).performCleanUp : C05 C06 C04
+//@   assumed footprint of a maintenance run under the eviction lock; the task it is given is applied by that run
+//@   counted
+//@   modifies $MAINT, $EVLOG, $ONDEL
+
+//@ func (*cache).getTask : C05 C06
+//@   counted
+//@   modifies task::n, task::old, task::writeReason, task::deletionCause
+//@   ensures [C05:task-carries-the-write] result != nil && result.n == n && result.old == old && result.writeReason == writeReason && result.deletionCause == cause
+
+//@ func (*cache).afterWriteTask : C05 C06 C04
+//@   counted
+//@   requires t != nil
+//@   modifies $MAINT, $EVLOG, $ONDEL, ghost_queued(), ghost_calls_performCleanUp()
+//@   loop 1: invariant [not-yet-accepted] ghost_queued() == pre(ghost_queued()) && ghost_calls_performCleanUp() == pre(ghost_calls_performCleanUp()) && i >= 0
+//@   ensures [C05:write-event-never-dropped] (ghost_queued() == pre(ghost_queued())+1 && ghost_calls_performCleanUp() == pre(ghost_calls_performCleanUp())) || (ghost_queued() == pre(ghost_queued()) && ghost_calls_performCleanUp() == pre(ghost_calls_performCleanUp())+1 && ghost_last_performCleanUp_t[K, V]() == t)
+
 //@ func (*cache).afterWrite : C01 C03 C05 C06 C09
-//@   assumed footprint only here; its task bookkeeping is verified under C05/C06
+//@   counted
+//@   requires cfg(c) && n != nil
+//@   modifies $MAINT, $EVLOG, $ONDEL, ghost_queued(), ghost_calls_performCleanUp(), ghost_calls_afterWriteTask(), ghost_calls_getTask()
+//@   ensures [C06:replacement-reported-without-maintenance] !c.withMaintenance && old != nil && c.onDeletion != nil ==> ghost_calls_onDeletion() == pre(ghost_calls_onDeletion()) + 1 && same(ghost_arg_onDeletion_1[V](), ghost_value(old)) && ghost_arg_onDeletion_2() == CauseReplacement
+//@   site afterWriteTask: requires [C05:event-carries-the-written-nodes] ghost_last_getTask_result[K, V]() != nil && ghost_last_getTask_result[K, V]().n == n && ghost_last_getTask_result[K, V]().old == old
+//@   site afterWriteTask: requires [C06:event-carries-truthful-cause] (old == nil ==> ghost_last_getTask_result[K, V]().writeReason == addReason) && (old != nil ==> ghost_last_getTask_result[K, V]().writeReason == updateReason && ghost_last_getTask_result[K, V]().deletionCause == pickCause(live(old, nowNano), CauseReplacement, CauseExpiration))
+//@   ensures [C05:one-write-event-per-write] c.withMaintenance ==> ghost_calls_afterWriteTask() == pre(ghost_calls_afterWriteTask()) + 1 && ghost_last_afterWriteTask_t[K, V]() == ghost_last_getTask_result[K, V]()
+
+//@ func (*cache).runTask : C05 C06
+//@   assumed footprint only (applies one write event to the policies; see policy.add/update/delete and Variable.Add/Delete for the verified steps)
 //@   counted
 //@   modifies $MAINT, $EVLOG, $ONDEL
 
 //@ func (*cache).afterDelete : C01 C03 C05 C06 C09
-//@   assumed footprint only here; its task bookkeeping is verified under C05/C06
 //@   counted
-//@   modifies $MAINT, $EVLOG, $ONDEL
+//@   requires cfg(c)
+//@   modifies $MAINT, $EVLOG, $ONDEL, ghost_queued(), ghost_calls_performCleanUp(), ghost_calls_afterWriteTask(), ghost_calls_runTask(), ghost_calls_getTask()
+//@   site afterWriteTask: requires [C05:delete-event-carries-the-removed-node] ghost_last_getTask_result[K, V]() != nil && ghost_last_getTask_result[K, V]().n == deleted && ghost_last_getTask_result[K, V]().writeReason == deleteReason && ghost_last_getTask_result[K, V]().deletionCause == pickCause(live(deleted, nowNano), CauseInvalidation, CauseExpiration)
+//@   ensures [C05:nothing-removed-nothing-told] deleted == nil ==> ghost_calls_afterWriteTask() == pre(ghost_calls_afterWriteTask()) && ghost_calls_runTask() == pre(ghost_calls_runTask()) && ghost_calls_onDeletion() == pre(ghost_calls_onDeletion())
+//@   ensures [C06:invalidation-reported-without-maintenance] deleted != nil && !c.withMaintenance && c.onDeletion != nil ==> ghost_calls_onDeletion() == pre(ghost_calls_onDeletion()) + 1 && same(ghost_arg_onDeletion_1[V](), ghost_value(deleted))
+//@   ensures [C05:one-delete-event-per-removal] deleted != nil && c.withMaintenance ==> ghost_calls_afterWriteTask()+ghost_calls_runTask() == pre(ghost_calls_afterWriteTask()+ghost_calls_runTask()) + 1
 
 //@ func (*cache).getNode : C01 C03 C20 C12
 //@   requires cfg(c) && nowNano >= 0
@@ -855,12 +899,12 @@ func estOf[K comparable](s *sketch[K], k K) uint64 {
 
 //@ func (*cache).wrapLoad : C20 C08
 //@   inline verified on its own and inlined at its call sites (the closure it runs is executed concretely)
-//@   panics
+//@   note fn is always a closure around doCall / doBulkCall, which recover loader panics and return them as errors; wrapLoad re-raises them after recording the load
 //@   requires cfg(c)
 //@   modifies ghost_loadSuccess(), ghost_loadFailure(), ghost_calls_fn(), ghost_ret_fn()
 //@   ensures [C20:load-counted-once] ghost_loadSuccess()+ghost_loadFailure() == pre(ghost_loadSuccess()+ghost_loadFailure()) + 1 && ghost_calls_fn() == pre(ghost_calls_fn()) + 1
 //@   ensures [C20:success-iff-no-error-or-notfound] ghost_loadSuccess() == pre(ghost_loadSuccess()) + pickU64(ghost_ret_fn() == nil || errors.Is(ghost_ret_fn(), ErrNotFound), 1, 0)
-//@   ensures on-panic [C20:load-counted-once-on-panic] ghost_loadSuccess()+ghost_loadFailure() == pre(ghost_loadSuccess()+ghost_loadFailure()) + pickU64(ghost_calls_fn() == pre(ghost_calls_fn()) + 1, 1, 0) || true
+//@   ensures on-panic [C20:load-counted-once-on-panic] ghost_loadSuccess()+ghost_loadFailure() == pre(ghost_loadSuccess()+ghost_loadFailure()) + 1 && ghost_calls_fn() == pre(ghost_calls_fn()) + 1
 
 // ---------------------------------------------------------------------------------------------
 // Eviction policy: C07 (justified, truthful removals), C04 (oversized / zero-weight / bound), C05 (bookkeeping)
